@@ -9,9 +9,11 @@
     [run_events] runs an arbitrary sequence of measure / probe / optimize_clamp events; optimize() is
     the special case [optimize_events].  The model is tied to the code by the correspondence of
     harness/props/C13.py (the model is evaluated inside Coq on the recorded oracles). *)
-From Coq Require Import List Bool Arith Reals.
-From CB Require Import Model.C13_Optimizer Proofs.C13_Optimizer Proofs.C13_Whole Proofs.C13_Instances.
+From Coq Require Import List Bool Arith Reals QArith.
+From CB Require Import Model.C13_Optimizer Model.C13_Cases Proofs.C13_Optimizer Proofs.C13_Whole Proofs.C13_Instances.
 Import ListNotations.
+Close Scope Q_scope.
+Open Scope nat_scope.
 
 (** ** no worse *)
 (** From a state in which every clamp sits on its manifold point ([inv]: junction = function(params),
@@ -26,6 +28,19 @@ Definition C13_no_worse_stmt : Prop :=
       run_events leb g st evs = (tr, fin) -> completed tr = true ->
       g_gq g (pts st) = Some q ->
       exists q', g_gq g (pts fin) = Some q' /\ leb q' q = true.
+
+(** The same for ANY rollback test [rb] in place of the code's "improvement <= 0" and any order [le] in
+    which "no worse" is read, as long as a result that is not rolled back is no worse
+    ([keeps_no_worse rb le]: rb q0 q1 = false -> le q1 q0).  Instances: rb = le = a total preorder
+    (the code); rb = "<", le = "<=" (ties kept instead of rolled back). *)
+Definition C13_no_worse_any_test_stmt : Prop :=
+  forall (X P V : Type) (rb le : V -> V -> bool) (g : grid X P V),
+    reflexive_le le -> transitive_le le -> keeps_no_worse rb le ->
+    forall (evs : list (event X)) (st : state X P) tr fin q,
+      wf g (length (pts st)) -> inv g st ->
+      run_events rb g st evs = (tr, fin) -> completed tr = true ->
+      g_gq g (pts st) = Some q ->
+      exists q', g_gq g (pts fin) = Some q' /\ le q' q = true.
 
 (** the same for optimize() as a whole, on the backported mesh *)
 Definition C13_optimize_no_worse_stmt : Prop :=
@@ -43,15 +58,16 @@ Definition C13_optimize_no_worse_stmt : Prop :=
     backported result is no worse than that snapped state.  (Before the snap the clamped vertices are
     within the clamp-initialisation tolerance of function(params): monitored by the harness.) *)
 Definition C13_optimize_any_entry_stmt : Prop :=
-  forall (X P V : Type) (leb : V -> V -> bool) (g : grid X P V),
-    total leb -> transitive leb ->
+  forall (X P V : Type) (rb le : V -> V -> bool) (g : grid X P V),
+    reflexive_le le -> transitive_le le -> keeps_no_worse rb le ->
     forall probes order rest (st : state X P) mesh tr fin mesh',
       wf g (length (pts st)) -> length probes = length (g_clamps g) ->
-      optimize leb g st mesh ((probes, order) :: rest) = (tr, fin, mesh') -> completed tr = true ->
+      optimize rb g st mesh ((probes, order) :: rest) = (tr, fin, mesh') -> completed tr = true ->
       exists tr0 snap q_s q',
-        run_events leb g st (EMeasure :: probe_events probes) = (tr0, snap) /\ completed tr0 = true /\
+        run_events rb g st (EMeasure :: probe_events probes) = (tr0, snap) /\ completed tr0 = true /\
         prm snap = prm st /\ inv g snap /\
-        g_gq g (pts snap) = Some q_s /\ mesh' = pts fin /\ g_gq g mesh' = Some q' /\ leb q' q_s = true.
+        g_gq g (pts snap) = Some q_s /\ mesh' = pts fin /\ inv g fin /\
+        g_gq g mesh' = Some q' /\ le q' q_s = true.
 
 (** its hypotheses hold on a run that starts OFF the manifolds (junction 0 at 5, function(params) = 3;
     follower at 99, image 13) *)
@@ -161,6 +177,19 @@ Definition C13_no_worse_real_stmt : Prop :=
     g_gq g (pts st) = Some q ->
     exists q', g_gq g (pts fin) = Some q' /\ (q' <= q)%R.
 
+Definition C13_no_worse_real_strict_stmt : Prop :=
+  forall (X P : Type) (g : grid X P R) (evs : list (event X)) (st : state X P) tr fin q,
+    wf g (length (pts st)) -> inv g st ->
+    run_events Rltb g st evs = (tr, fin) -> completed tr = true ->
+    g_gq g (pts st) = Some q ->
+    exists q', g_gq g (pts fin) = Some q' /\ (q' <= q)%R.
+
+(** the two rollback tests accepted by the correspondence (Model/C13_Cases.check_case: the code's
+    [Qle_bool]; at exact ties also [Qlt_bool]) satisfy the hypotheses of the theorems above *)
+Definition C13_correspondence_tests_covered_stmt : Prop :=
+  total Qle_bool /\ transitive Qle_bool /\ reflexive_le Qle_bool /\
+  keeps_no_worse Qle_bool Qle_bool /\ keeps_no_worse Qlt_bool Qle_bool.
+
 (** [C13_no_worse_stmt] without "every clamp sits on entry": false (a rollback moves the junction to
     function(initial params), which is not where it was) *)
 Definition C13_no_worse_unconditional_stmt : Prop :=
@@ -189,8 +218,11 @@ Proof. exact run_events_no_worse. Qed.
 Theorem C13_optimize_no_worse : C13_optimize_no_worse_stmt.
 Proof. exact optimize_no_worse. Qed.
 
+Theorem C13_no_worse_any_test : C13_no_worse_any_test_stmt.
+Proof. intros X P V rb le g. exact (run_events_no_worse_gen X P V rb le g). Qed.
+
 Theorem C13_optimize_any_entry : C13_optimize_any_entry_stmt.
-Proof. exact optimize_any_entry. Qed.
+Proof. intros X P V rb le g. exact (optimize_any_entry_gen X P V rb le g). Qed.
 
 Theorem C13_kept : C13_kept_stmt.
 Proof. exact optimize_clamp_kept. Qed.
@@ -231,11 +263,20 @@ Proof. intros P quads p. split; [apply sketch_backport | apply sketch_faces]. Qe
 Theorem C13_no_worse_real : C13_no_worse_real_stmt.
 Proof. exact no_worse_real. Qed.
 
+Theorem C13_no_worse_real_strict : C13_no_worse_real_strict_stmt.
+Proof. exact no_worse_real_strict. Qed.
+
+Theorem C13_correspondence_tests_covered : C13_correspondence_tests_covered_stmt.
+Proof.
+  exact (conj Qle_bool_total (conj Qle_bool_trans (conj Qle_bool_refl (conj Qle_bool_keeps Qlt_bool_keeps)))).
+Qed.
+
 Theorem C13_no_worse_without_sits_refuted : ~ C13_no_worse_unconditional_stmt.
 Proof. exact no_worse_unconditional_refuted. Qed.
 
 Print Assumptions C13_no_worse.
 Print Assumptions C13_optimize_no_worse.
+Print Assumptions C13_no_worse_any_test.
 Print Assumptions C13_optimize_any_entry.
 Print Assumptions C13_kept.
 Print Assumptions C13_frame.
@@ -250,4 +291,6 @@ Print Assumptions C13_sensitivity_restores.
 Print Assumptions C13_backport_mesh.
 Print Assumptions C13_backport_sketch.
 Print Assumptions C13_no_worse_real.
+Print Assumptions C13_no_worse_real_strict.
+Print Assumptions C13_correspondence_tests_covered.
 Print Assumptions C13_no_worse_without_sits_refuted.
